@@ -155,7 +155,7 @@ async function main () {
     known_findings_reobserved: knownSeen.map(([s, vs]) => ({ signature: s, count: vs.length })),
     new_violation_signatures: newSigs.map(([s]) => s).slice(0, 50)
   }, fin.coverage || {})
-  for (const [k, v] of Object.entries(m.extra)) coverage[k] = Array.from(v).sort().slice(0, 400)
+  for (const [k, v] of Object.entries(m.extra)) { const arr = Array.from(v).sort(); coverage[k] = arr.slice(0, arr.some(x => String(x).length > 120) ? 12 : 400) }
   const level = mod.level || 'exploration'
   if (level === 'translation_validation') {
     coverage.programs = coverage.programs === undefined ? m.evaluations : coverage.programs
